@@ -3,7 +3,9 @@ Model: coq/Model/SaxFilter.v (the SAXParser handler), coq/Model/JunosParse.v / J
 (a) handler level: real SAXParser under real expat, events teed and replayed on the extracted model; oracle = an
     independent xml.etree projection of the full reply.  (b) whole path: a Junos-profile session fed reply byte
     streams under enumerated cuts; oracle = reply equals the one obtained with the mode off (no filter) / equals
-    the projection (filter), whatever the cuts."""
+    the projection (filter), whatever the cuts.  (g) several such sessions in one process, same filters / filter
+    objects, reads interleaved read by read by a deterministic scheduler: same oracles per session + equality with
+    the sessions run one after the other + the process model (coq/Model/JunosProcess.v) after every read."""
 import itertools, json, os, glob
 ID = 'C18'
 COQ_ROOTS = ['Props/C18.v', 'GenProps/Sax_consts.v']
@@ -24,13 +26,20 @@ RULE = ('(a) handler level: documents from a grammar of Junos-style replies (pla
         'chunking per message: one chunk, several, boundaries inside tags, inside multi-byte characters, chunks of 1-9 octets, one octet per chunk -- read uncut, with a cut at every offset inside/at the edge of '
         'chunk headers and end-of-chunks (quick: 30 of them), cuts in the chunk data, double cuts in the framing octets, random multi-cuts, octet by octet; filters in all forms (drawn per request + all combinations for some streams); '
         'streams with one reply not well-formed; same oracles (mode-off run on the same chunked stream / xml.etree projection). Every cut run is also replayed on the extracted driver model '
-        '(coq/Model/JunosParse.v for base:1.0, coq/Model/JunosParse11.v = C01 de-chunker + _dispatch11 for base:1.1) and compared after every read. A case is distinct by (document, filter, request kind) resp. '
+        '(coq/Model/JunosParse.v for base:1.0, coq/Model/JunosParse11.v = C01 de-chunker + _dispatch11 for base:1.1) and compared after every read. '
+        '(g) several sessions in ONE process: 2-3 Junos sessions (70% two), later sessions mostly twins of the first (same requests and filters, replies of the same shape with other text and message-ids; equal filters are handed over as the '
+        'SAME str / bytes / lxml element object; forms cycle text, shared element, bytes, one random form, independent), else independent streams; half the groups wrapper-shaped replies; message-ids distinct or numbered from 1 in '
+        'every session; 12% of the sessions in base:1.1; each session\'s stream is cut into reads and the reads are dealt out ONE AT A TIME by a deterministic scheduler (real Session.run per session, exactly one worker running): every tag a read / sessions in turn, '
+        'the same with one session 1-6 reads ahead, one cut after a tag each (first reads in a random order, then second reads), one session cut after a tag and the others read whole in between, 1-5 cuts (tags or anywhere) in a random '
+        'order (thorough: more of each + octet by octet in turn); oracle per session as in (b), plus: results equal those of the same sessions run one after the other in the same process; every run replayed on the extracted '
+        'process model (coq/Model/JunosProcess.v, glue fn 6: schedule dealt from the order of turns) and compared after every scheduled read. A case is distinct by (document, filter, request kind) resp. '
         '(stream, filters, cuts); non-trivial = the request has a filter and the document has at least one kept and one '
         'dropped element, or the stream is cut.')
 ASSUMES = ['expat delivers the SAX events of the byte stream fed so far, independent of how it was fed, with raw qualified names (pyexpat 2.5.0: no reparse deferral)',
            'driver model: the octets the SAX handler writes never contain "]]>" (they are kept apart from the delimiter search); base:1.0 branch (JunosParse.v): NETCONF 1.0 framing; base:1.1 branch (JunosParse11.v): the de-chunker is the C01 model Framing11.feed11, and the harness sets session._base itself (negotiation is C07/C01 ground); the verdict of Session._dispatch_message on a DOM message (does parse_root find a root) and the per-octet events of expat are oracles supplied by the harness',
            'lxml Element.find(tag, namespaces) / getparent / builder.E behave as modelled (first child by Clark tag, SyntaxError on unknown prefix, ValueError on prefixed tag)',
-           'the model takes the filter as a tree (ftree) whatever object the caller handed over; that an lxml element, a sub-element or a shared element behaves like the text is checked by the correspondence (family (e)), not proved; an Element filter object is re-parented by the wrapper step',
+           'the model takes the filter as a tree (ftree) whatever object the caller handed over; that an lxml element, a sub-element or a shared element behaves like the text is checked by the correspondence (families (e), (g)), not proved (since fix 0df4d0e the handler works on a copy of an element filter)',
+           'several sessions (JunosProcess.v): a read changes the state of the session that takes it and nothing else -- the modelling decision the theorems C18_sessions_* rest on; checked by family (g) on real sessions of one process, not proved of the Python module (module globals, caches, the caller\'s filter object are outside the model)',
            'base:1.1: the de-chunked message is re-encoded as UTF-8 for the XML parser (a reply declaring another encoding is outside NETCONF and outside the check)',
            'byte-level recovery (_delimiter_check, only reached for input that is not well-formed XML) is not modelled: the driver model ends in an explicit Stuck state there and the comparison stops at that read']
 TRUSTED = ['modelled, not verified: expat, lxml, difflib; DefaultXMLParser._parse10 (C01) is used as is for the hand-over, DefaultXMLParser._parse11 (C01 model Framing11, tied there and again here read by read: buffer and chunks in progress) for de-chunking',
@@ -260,23 +269,25 @@ def _rename_below(rng, doc, r, new):
         return ('E', t[1], t[2], ks)
     return rebuild(doc, target)
 
-def gen_stream(rng, n_replies=None, linked=False, leaf=None, p_filter=None, twin=False):
+def gen_stream(rng, n_replies=None, linked=False, leaf=None, p_filter=None, twin=False, id0=0, p_wrapper=None):
     """-> dict(kind='path', docs=[doc...], filters=[filter or None...], gaps=[bytes between replies]).
     linked: a later reply contains, below its own top element, an element named like the first reply's top element
     (software-information alone, then inside multi-routing-engine-results): what one request leaves behind in the
     parser must not show in the next.
     leaf: True = every filter is a single leaf (the filter root alone), False = every filter has children, None = as drawn; p_filter: probability that
     a request has a filter; twin: the second reply is the first again (other message-id) and the request has the same
-    filter (so that one filter OBJECT can serve both requests, form 'shared')."""
+    filter (so that one filter OBJECT can serve both requests, form 'shared'); id0: number of message-ids handed out
+    before this session's requests (several sessions in one process); p_wrapper: probability of the one-level wrapper shape."""
     H, G = _H()
     n = n_replies or (rng.choice([2, 2, 3]) if linked else rng.choice([1, 1, 2]))
     docs, fls = [], []
-    ids = H.ids_for(n)
+    ids = H.ids_for(n, id0)
     r0 = None
     for i in range(n):
         one_leaf = leaf if leaf is not None else rng.random() < 0.12
         for _try in range(50):
-            doc, r = G.gen_doc(rng, ids[i], rng.choice(['inclass', 'inclass', 'inclass', 'wrapper']))
+            doc, r = G.gen_doc(rng, ids[i], rng.choice(['inclass', 'inclass', 'inclass', 'wrapper']) if p_wrapper is None else
+                               ('wrapper' if rng.random() < p_wrapper else 'inclass'))
             if linked and i > 0:
                 if r == r0: continue
                 d2 = _rename_below(rng, doc, r, r0)
@@ -296,7 +307,7 @@ def gen_stream(rng, n_replies=None, linked=False, leaf=None, p_filter=None, twin
     # some servers start every message with an XML declaration (after the white space that follows the delimiter)
     decl = [rng.random() < 0.3 for _ in range(n)]
     forms = [rng.choice(H.FILTER_FORMS if f is not None else H.NOFILTER_FORMS) for f in fls]
-    return dict(kind='path', docs=docs, filters=fls, gaps=gaps, decl=decl, forms=forms)
+    return dict(kind='path', docs=docs, filters=fls, gaps=gaps, decl=decl, forms=forms, **({'id0': id0} if id0 else {}))
 
 def forms_of(case):
     """how each request hands over its filter / comes to have none (cases recorded before round 4: text / None)"""
@@ -345,7 +356,7 @@ def path_expected(case):
     off, and for filtered requests the projection (canonical trees of raw and of the transformed reply)."""
     H, G = _H()
     stream = stream_bytes(case)
-    off = H.run_stream([stream], [None] * len(case['docs']), use_filter=False, forms=off_forms(case), base=base_of(case))
+    off = H.run_stream([stream], [None] * len(case['docs']), use_filter=False, forms=off_forms(case), base=base_of(case), id0=case.get('id0', 0))
     exp = []
     for i, (d, f, o) in enumerate(zip(case['docs'], case['filters'], off)):
         if o[0] != 'reply' or case.get('corrupt') == i:
@@ -386,7 +397,7 @@ def run_path(case, cuts):
         segs = [stream[i:i + 1] for i in range(len(stream))]
     else:
         segs = H.cuts_to_segments(stream, cuts)
-    return H.run_stream(segs, fstrs, use_filter=True, forms=forms_of(case), base=base_of(case))
+    return H.run_stream(segs, fstrs, use_filter=True, forms=forms_of(case), base=base_of(case), id0=case.get('id0', 0))
 
 def run_path_obs(case, cuts):
     """run_path with the per-read observations of harness/saxseg.py"""
@@ -395,7 +406,7 @@ def run_path_obs(case, cuts):
     stream = stream_bytes(case)
     fstrs = [None if f is None else G.filter_str(_ftup(f)) for f in case['filters']]
     segs = [stream[i:i + 1] for i in range(len(stream))] if cuts == 'bytewise' else H.cuts_to_segments(stream, cuts)
-    return S.run_stream_obs(segs, fstrs, use_filter=True, forms=forms_of(case), base=base_of(case))
+    return S.run_stream_obs(segs, fstrs, use_filter=True, forms=forms_of(case), base=base_of(case), id0=case.get('id0', 0))
 
 def check_driver_model(ctx, case, stream, runs):
     """JunosParse.run (extracted, instance JunosSax) vs the implementation, read by read, for the cut runs of one stream"""
@@ -404,7 +415,7 @@ def check_driver_model(ctx, case, stream, runs):
     H, G = _H()
     from harness import saxseg as S
     fstrs = [None if f is None else G.filter_str(_ftup(f)) for f in case['filters']]
-    world = S.world_for(stream, H.ids_for(len(case['docs'])), fstrs, env_val, events_val)
+    world = S.world_for(stream, H.ids_for(len(case['docs']), case.get('id0', 0)), fstrs, env_val, events_val)
     for k in range(0, len(runs), 400):
         part = runs[k:k + 400]
         mres = ctx.model.call([4, world, stream, [S.lens_of(stream, c) for c, _ in part]])
@@ -423,7 +434,7 @@ def check_driver_model11(ctx, case, stream, runs):
     from harness import saxseg as S
     fstrs = [None if f is None else G.filter_str(_ftup(f)) for f in case['filters']]
     msgs = [msg_bytes11(case, i) for i in range(len(case['docs']))]
-    world = S.world_for11(msgs, H.ids_for(len(msgs)), fstrs, env_val, events_val)
+    world = S.world_for11(msgs, H.ids_for(len(msgs), case.get('id0', 0)), fstrs, env_val, events_val)
     for k in range(0, len(runs), 400):
         part = runs[k:k + 400]
         mres = ctx.model.call([5, world, stream, [S.lens_of(stream, c) for c, _ in part]])
@@ -638,6 +649,224 @@ def check_malformed11_case(ctx, case, cutsets):
     ctx.hist('path_malformed', 'base:1.1, ' + ('filter' if case['filters'][k] is not None else 'no filter') +
              (', root lxml refuses' if case.get('corrupt_kind') == 'nons' else ', not well-formed after the start tag'), len(runs))
 
+# ------------------------------------------------------------------ (g) several sessions in one process, reads interleaved
+# "independent of other replies adjacent in the stream", seen process-wide: an application that polls several devices has
+# several Junos sessions, each with its own worker, very often with the SAME filter (the same text, or one element object
+# built once).  What one session's request gets must not depend on how far another session's reply has been read.
+SESSION_FORMS = ('text', 'text', 'bytes', 'shared', 'shared', 'element', 'subelement')
+
+def _vary_text(t, tag):
+    """the same document with every non-blank text changed (what another device answers to the same request)"""
+    if t[0] == 'T':
+        return t if not t[1].strip() else ('T', t[1] + tag, t[2])
+    return ('E', t[1], t[2], [_vary_text(k, tag) for k in t[3]])
+
+def _with_id(doc, mid):
+    return ('E', doc[1], [(k, mid if k == 'message-id' else v) for k, v in doc[2]], doc[3])
+
+def gen_sessions(rng, k):
+    """-> dict(kind='sessions', sessions=[path case...], ids='distinct'|'same', relation=[...]): 2-3 sessions of one
+    process.  Sessions after the first are mostly TWINS of the first: the same requests with the same filters, replies of the
+    same shape with other text and message-ids (k % 4 != 3), handed over in the same form (k % 5: 0 text, 1 one shared
+    element object, 2 bytes, 3 any one form, 4 forms drawn independently); otherwise independent streams.  Even k: replies
+    of the wrapper shape (<rpc-reply><data><configuration>).  ids 'same': every session numbers its requests from 1."""
+    H, G = _H()
+    ns = 2 if rng.random() < 0.7 else 3
+    twin = k % 4 != 3
+    same_ids = rng.random() < 0.3
+    pw = 0.9 if k % 2 == 0 else 0.15
+    first = gen_stream(rng, n_replies=rng.choice([1, 1, 2]), p_filter=1.0 if twin and k % 5 < 4 else 0.7, p_wrapper=pw)
+    fm = k % 5
+    def redraw_forms(case, one=None):
+        case['forms'] = [(one or rng.choice(SESSION_FORMS)) if f is not None else rng.choice(H.NOFILTER_FORMS) for f in case['filters']]
+    one = {0: 'text', 1: 'shared', 2: 'bytes', 3: rng.choice(SESSION_FORMS)}.get(fm)
+    redraw_forms(first, one)
+    sessions, relation, id0 = [first], ['first'], len(first['docs'])
+    for j in range(1, ns):
+        base_id = 0 if same_ids else id0
+        if twin:
+            ids = H.ids_for(len(first['docs']), base_id)
+            c = dict(first, docs=[_with_id(_vary_text(_tup(d), '-s%d' % j) if rng.random() < 0.8 else _tup(d), ids[i]) for i, d in enumerate(first['docs'])],
+                     gaps=[rng.choice(['', '', '\n', '\n\n', ' ']) for _ in first['docs']], decl=[rng.random() < 0.3 for _ in first['docs']],
+                     forms=list(first['forms']))
+            if fm == 4: redraw_forms(c)
+            relation.append('twin of the first (same filters)')
+        else:
+            c = gen_stream(rng, n_replies=rng.choice([1, 1, 2]), p_filter=0.7, p_wrapper=pw)
+            c['docs'] = [_with_id(_tup(d), m) for d, m in zip(c['docs'], H.ids_for(len(c['docs']), base_id))]
+            redraw_forms(c, one if fm < 4 else None)
+            relation.append('independent stream')
+        c.pop('id0', None)
+        if base_id: c['id0'] = base_id
+        sessions.append(c); id0 += len(c['docs'])
+    for c in sessions:
+        if rng.random() < 0.12:                                # this session negotiated base:1.1
+            c['base'] = 11; c['chunking'], c['chunks'] = [], []
+            for i in range(len(c['docs'])):
+                u, sz = gen_chunks(rng, msg_bytes11(c, i), rng.choice(CHUNKINGS)); c['chunking'].append(u); c['chunks'].append(sz)
+    return dict(kind='sessions', sessions=sessions, ids='same' if same_ids else 'distinct', relation=relation)
+
+def tag_cuts(stream):
+    """read boundaries right after a tag: the places where the handler has just changed its state"""
+    return [i + 1 for i in range(len(stream) - 1) if stream[i] == 0x3e]
+
+def _round_robin(counts, lead=()):
+    """order of reads: `lead` first, then one read per session in turn until every session has had counts[k] reads"""
+    left = list(counts); order = []
+    for k in lead:
+        if left[k] > 0: order.append(k); left[k] -= 1
+    while any(left):
+        for k in range(len(left)):
+            if left[k] > 0: order.append(k); left[k] -= 1
+    return order
+
+def gen_interleavings(rng, group, thorough):
+    """-> [(style, cuts per session, order)]: the sessions' streams cut into reads and the reads dealt out one at a time"""
+    streams = [stream_bytes(c) for c in group['sessions']]
+    T = [tag_cuts(b) or [1] for b in streams]
+    n = len(streams)
+    out = []
+    ev = [t if len(t) <= 70 else sorted(rng.sample(t, 70)) for t in T]
+    cnt = [len(c) + 1 for c in ev]
+    out.append(('every tag a read, sessions in turn', ev, _round_robin(cnt)))
+    for _ in range(3 if thorough else 1):
+        k = rng.randrange(n); d = rng.randint(1, 6)
+        out.append(('every tag a read, one session ahead', ev, _round_robin(cnt, [k] * d)))
+    for _ in range(8 if thorough else 3):
+        cuts = [[rng.choice(t)] for t in T]
+        first = list(range(n)); rng.shuffle(first); second = list(range(n)); rng.shuffle(second)
+        out.append(('one cut after a tag each, first reads then second reads', cuts, first + second))
+    for _ in range(6 if thorough else 2):
+        k = rng.randrange(n)
+        cuts = [[rng.choice(t)] if j == k else [] for j, t in enumerate(T)]
+        out.append(('one session cut after a tag, the others read whole in between', cuts, [k] + [j for j in range(n) if j != k] + [k]))
+    for _ in range(10 if thorough else 3):
+        cuts = []
+        for b, t in zip(streams, T):
+            m = rng.randint(1, 5)
+            cuts.append(sorted(set(rng.choice(t) if rng.random() < 0.6 else rng.randrange(1, len(b)) for _ in range(m))))
+        order = [k for k, c in enumerate(cuts) for _ in range(len(c) + 1)]
+        rng.shuffle(order)
+        out.append(('random cuts, random order', cuts, order))
+    if thorough:
+        short = [list(range(1, len(b))) if len(b) < 400 else sorted(rng.sample(range(1, len(b)), 300)) for b in streams]
+        out.append(('octet by octet, sessions in turn', short, _round_robin([len(c) + 1 for c in short])))
+    return out
+
+def complete_order(order, counts):
+    """the order of turns with the turns nobody can take removed and the reads left over at its end handed out session by
+    session (what harness/saxseg.py run_sessions_obs does; the model's `deal` gets the completed order)"""
+    left, out = list(counts), []
+    for k in order:
+        if left[k] > 0: out.append(k); left[k] -= 1
+    for k in range(len(left)): out += [k] * left[k]
+    return out
+
+def check_process_model(ctx, group, streams, runs):
+    """JunosProcess.sx_prun (extracted, glue fn 6: the list of the sessions' driver states, the schedule dealt from the order
+    of turns) vs the implementation: after every read the state of the session that took it, at the end every session's
+    messages and octets per parser.  runs = [(cuts per session, order, [observations per session])]"""
+    if not ctx.model or not runs: return
+    H, G = _H()
+    from harness import saxseg as S
+    ss = group['sessions']
+    sv = []
+    for c, stream in zip(ss, streams):
+        fstrs = [None if f is None else G.filter_str(_ftup(f)) for f in c['filters']]
+        ids = H.ids_for(len(c['docs']), c.get('id0', 0))
+        if base_of(c) == 11:
+            world = S.world_for11([msg_bytes11(c, i) for i in range(len(c['docs']))], ids, fstrs, env_val, events_val)
+        else:
+            world = S.world_for(stream, ids, fstrs, env_val, events_val)
+        sv.append([base_of(c), world, stream])
+    mres = ctx.model.call([6, sv, [[[S.lens_of(b, cu) for b, cu in zip(streams, cuts)], list(order)] for cuts, order, _ in runs]])
+    for (cuts, order, logs), m in zip(runs, mres):
+        steps, finals = m
+        per = [[] for _ in ss]
+        for k, obs in steps: per[k].append(obs)
+        for j, c in enumerate(ss):
+            mj = (per[j], finals[j][0], finals[j][1])
+            bad = (S.compare11 if base_of(c) == 11 else S.compare)(mj, logs[j])
+            ctx.hist('driver_model', 'process of several sessions: ' + ('base:1.1 session compared' if base_of(c) == 11 else
+                     'outside the model (expat rejects)' if any(r[0] == 3 for r in per[j]) else 'base:1.0 session compared'))
+            if bad:
+                ctx.disagree(dict(group, cuts=[list(x) for x in cuts], order=list(order)), repr(bad[1])[:600], repr(bad[2])[:600],
+                             'JunosProcess.sx_prun vs %d sessions in one process, session %d: %s' % (len(ss), j, bad[0]), theorem='C18_sessions_alone')
+                return
+
+def sequential(group):
+    """the reference: the same sessions in the same process, one after the other, each stream in one read"""
+    return ('one after the other', [[] for _ in group['sessions']], list(range(len(group['sessions']))))
+
+def run_sessions(group, cuts, order):
+    """-> [(results per request, observations) per session]"""
+    H, G = _H()
+    from harness import saxseg as S
+    specs = []
+    for c, cu in zip(group['sessions'], cuts):
+        stream = stream_bytes(c)
+        specs.append(dict(segments=H.cuts_to_segments(stream, cu), forms=forms_of(c), base=base_of(c), id0=c.get('id0', 0),
+                          filters=[None if f is None else G.filter_str(_ftup(f)) for f in c['filters']]))
+    return S.run_sessions_obs(specs, order, use_filter=True)
+
+def sessions_verdict(group, exps, ref, outs):
+    """None, or (session, what, expected, actual): each session's requests get what the property says (per-session oracle
+    of the one-session families), and exactly what they get when the sessions run one after the other"""
+    for j, (exp, (res, _log)) in enumerate(zip(exps, outs)):
+        v = path_verdict(exp, res)
+        if v: return (j, 'session %d of %d in one process: %s' % (j, len(outs), v[1]), v[2], v[3])
+    if ref is not None:
+        for j, ((r0, _l0), (res, _log)) in enumerate(zip(ref, outs)):
+            if [tuple(x) for x in r0] != [tuple(x) for x in res]:
+                return (j, 'session %d of %d in one process: results differ from those obtained when the sessions run one after the other' % (j, len(outs)),
+                        [list(x) for x in r0], [list(x) for x in res])
+    return None
+
+def sessions_sig(group, j, cuts):
+    """a failure that session j shows alone too (same cuts) is that session's own (path_sig); one that needs the other
+    sessions is covered by no open finding"""
+    c = group['sessions'][j]
+    stream, exp = path_expected(c)
+    if path_verdict(exp, run_path(c, cuts[j])) is None: return None
+    return path_sig(c, cuts[j])
+
+def check_sessions_case(ctx, group, inters):
+    H, G = _H()
+    ss = group['sessions']
+    pe = [path_expected(c) for c in ss]
+    streams, exps = [p[0] for p in pe], [p[1] for p in pe]
+    fs = [[None if f is None else G.filter_str(_ftup(f)) for f in c['filters']] for c in ss]
+    common = set(x for x in fs[0] if x) & set(x for c in fs[1:] for x in c if x)
+    ctx.hist('sessions_in_process', len(ss)); ctx.hist('sessions_ids', group.get('ids', '?'))
+    for rel in group.get('relation', [])[1:]: ctx.hist('sessions_relation', rel)
+    for c, f in zip(ss, fs):
+        for d, x, fl, fm in zip(c['docs'], f, c['filters'], forms_of(c)):
+            ctx.hist('sessions_request', 'no filter (%s)' % fm if x is None else '%s, %s, %s, base:%s' % (
+                fm, 'filter used by another session too' if x in common else 'filter of this session only',
+                'wrapper' if 'wrapper' in G.reasons(_tup(d), _ftup(fl)) else 'first child', '1.1' if base_of(c) == 11 else '1.0'))
+    st, cu, od = sequential(group)
+    ref = run_sessions(group, cu, od)
+    runs = []
+    n = 0
+    for style, cuts, order in [(st, cu, od)] + list(inters):
+        order = complete_order(order, [len(H.cuts_to_segments(b, c)) for b, c in zip(streams, cuts)])
+        outs = ref if style == st else run_sessions(group, cuts, order)
+        n += 1
+        ctx.hist('sessions_interleaving', style)
+        ctx.hist('sessions_reads_per_run', min(len(order) // 10 * 10, 100))
+        runs.append(([list(x) for x in cuts], order, [log for _res, log in outs]))
+        v = sessions_verdict(group, exps, None if style == st else ref, outs)
+        if v:
+            c = dict(group, cuts=[list(x) for x in cuts], order=list(order), style=style)
+            ctx.fail(c, v[1] + ' [%s; cuts %s; order of reads %s]' % (style, cuts if len(order) < 40 else '...', order if len(order) < 40 else '...'),
+                     sig=sessions_sig(group, v[0], cuts), expected=v[2], actual=v[3])
+            if len(ctx.failures) > 20: break
+    check_process_model(ctx, group, streams, runs)
+    ctx.evaluations += n; ctx.traces += n
+    ctx.count(dict(streams=[b.hex() for b in streams], filters=fs), nontrivial=True)
+    ctx.evaluations -= 1
+    ctx.hist('path_runs', 'runs of several sessions', n)
+
 def load_corpus():
     out = []
     d = os.path.join(os.path.dirname(os.path.dirname(os.path.dirname(os.path.abspath(__file__)))), 'corpus', 'C18')
@@ -655,6 +884,8 @@ def run(ctx):
     for c in corpus:
         if c.get('kind') == 'path':
             check_path_case(ctx, c, [c.get('cuts', [])])
+        if c.get('kind') == 'sessions':
+            check_sessions_case(ctx, c, [(c.get('style', 'recorded'), c['cuts'], c['order'])])
     check_escaping(ctx)
     # (a) handler level
     n = 2500 if thorough else 400
@@ -721,6 +952,12 @@ def run(ctx):
         L = len(stream_bytes(case))
         check_malformed11_case(ctx, case, [[]] + [[c] for c in sorted(rng.sample(range(1, L), min(L - 1, 40 if thorough else 12)))] + ['bytewise'])
     ctx.extra['base11_family_wall_s'] = round(time.time() - t11, 1)
+    # (g) several sessions in one process (same filters, same filter objects), their reads interleaved read by read
+    tg = time.time()
+    for k in range(100 if thorough else 40):
+        group = gen_sessions(rng, k)
+        check_sessions_case(ctx, group, gen_interleavings(rng, group, thorough))
+    ctx.extra['sessions_family_wall_s'] = round(time.time() - tg, 1)
     if thorough:
         # all double cuts of two short streams (two adjacent replies, filter/no filter)
         for k in range(2):
@@ -735,6 +972,13 @@ def run(ctx):
 def eval_case(case):
     """-> None if the property holds on this case, else dict(what, sig, expected, actual)."""
     H, G = _H()
+    if case.get('kind') == 'sessions':
+        exps = [path_expected(c)[1] for c in case['sessions']]
+        st, cu, od = sequential(case)
+        ref = run_sessions(case, cu, od)
+        v = sessions_verdict(case, exps, None, ref) or sessions_verdict(case, exps, ref, run_sessions(case, case['cuts'], case['order']))
+        if v: return dict(what=v[1], sig=sessions_sig(case, v[0], case['cuts']), expected=v[2], actual=v[3])
+        return None
     if case.get('kind') == 'path':
         stream, exp = path_expected(case)
         v = path_verdict(exp, run_path(case, case.get('cuts', [])))
@@ -760,7 +1004,7 @@ def search(ctx, seeds):
         if r and not findings.covered(ID, r.get('sig')):
             return dict(case=case, **r)
     for c in seeds:
-        if c.get('kind') in ('handler', 'path'):
+        if c.get('kind') in ('handler', 'path', 'sessions'):
             f = new(c)
             if f: return f
     # whole path first (segmentation is where the property is most fragile), then handler level
@@ -777,6 +1021,11 @@ def search(ctx, seeds):
                 sig = path_sig(case, cuts)
                 if not findings.covered(ID, sig):
                     return dict(case=dict(case, cuts=cuts), what=v[1], sig=sig, expected=v[2], actual=v[3])
+    for k in range(40):                      # several sessions in one process
+        group = gen_sessions(rng, k)
+        for style, cuts, order in gen_interleavings(rng, group, False):
+            f = new(dict(group, cuts=[list(x) for x in cuts], order=list(order), style=style))
+            if f: return f
     for k in range(18):                      # chunked framing
         case = gen_stream11(rng, k)
         stream, exp = path_expected(case)
@@ -798,7 +1047,13 @@ def replay(doc):
     c = doc['case']
     r = eval_case(c)
     H, G = _H()
-    if c.get('kind') == 'path':
+    if c.get('kind') == 'sessions':
+        print('%d Junos sessions (use_filter on) in one process; message-ids %s' % (len(c['sessions']), c.get('ids')))
+        for j, x in enumerate(c['sessions']):
+            print('session %d stream :' % j, stream_bytes(x)); print('          filters:', [None if f is None else G.filter_str(_ftup(f)) for f in x['filters']])
+            print('          handed over as:', forms_of(x), '(equal filters: the same object in every session)'); print('          cuts   :', c['cuts'][j], ' framing: base:1.%d' % (base_of(x) - 10))
+        print('order of reads (session index per read):', c['order'], '(%s)' % c.get('style'))
+    elif c.get('kind') == 'path':
         print('stream   :', stream_bytes(c)); print('filters  :', [None if f is None else G.filter_str(_ftup(f)) for f in c['filters']])
         print('handed over as / request without filter issued as (harness/saxpath.py FILTER_FORMS, NOFILTER_FORMS):', forms_of(c)); print('cuts     :', c.get('cuts'))
         if base_of(c) == 11: print('framing  : base:1.1, chunk sizes per message (the rest of a message is its last chunk):', c.get('chunks'))
